@@ -288,6 +288,24 @@ def queries(which, quick):
                     add(u.format(x='(' + inner + ')'),
                         'depth3:' + u + ':' + bq +
                         (':correlated' if corr else ''))
+    # shape elements that are plain pointers with clauses
+    if which == 'A':
+        carriers = [('Post', ['author: {{ name }}']),
+                    ('User', ['friends: {{ name }}', 'best: {{ name }}',
+                              'tags', 'name'])]
+    else:
+        carriers = [('Player', ['roles', 'deck: {{ cname }}',
+                                'fav: {{ cname }}', 'name'])]
+    clauses = ['offset 1', 'limit 0', 'limit 1', 'offset 1 limit 1',
+               'order by .{k}', 'order by .{k} limit 1']
+    for t, els in carriers:
+        for el in els:
+            for cl in clauses:
+                k = 'cname' if 'cname' in el else 'name'
+                if el in ('tags', 'roles', 'name') and 'order by' in cl:
+                    continue
+                add(f'select {t} {{ {el.format()} {cl.format(k=k)} }}',
+                    'shape-clause')
     for q in (EXTRA_A if which == 'A' else EXTRA_B):
         add(q, 'extra:' + q)
     return [(q, fam[q]) for q in qs]
